@@ -23,7 +23,9 @@ class Check(EngineCheck):
                 "LLBuild.Refine.EngineImpl_sound_C06_ghost_flag",
                 "LLBuild.Refine.EngineImpl_sound_all", "LLBuild.Refine.EngineImpl_sound_fail",
                 E + "C01_value_gen_clamp", E + "DSL.PPof_SelfStable", E + "DSL.PPof_SigCovers_forces"]
-    mix = [(0.4, {}), (0.2, {"threads": True}), (0.2, {"cancel": True}), (0.2, {"reprogram": True})]
+    mix = [(0.4, {}), (0.2, {"threads": True}), (0.2, {"cancel": True}), (0.2, {"reprogram": True}),
+           # directed: a scanning build cancelled from inside a callback, then an edit and a build on the same engine
+           (0.15, {"cancelscan": True})]
     budget = (300, 3000)
 
 
